@@ -76,12 +76,9 @@ pub fn check(oh: &Oh, ast: Option<&OpeningHoursExpression>, t: NaiveDateTime, ho
     // e. iter_from: no interval ends beyond 10000-01-01, nothing from there on
     // (an expression that never changes but is not trivially constant walks day by day to 9999:
     // the step budget of hook H1 cuts that short, the claim is then left to the bounded checks)
-    opening_hours::verif_hooks::arm_budget(opening_hours::verif_hooks::Site::DayStep, 40_000);
-    let first = guarded(|| oh.iter_from(t).next());
-    opening_hours::verif_hooks::disarm_budgets();
-    let first = match first {
-        Ok(f) => f,
-        Err(p) if p.starts_with("step budget exceeded") => return Ok(()),
+    let first = match stream::with_day_budget(40_000, || oh.iter_from(t).next()) {
+        Ok(Some(f)) => f,
+        Ok(None) => return Ok(()),
         Err(p) => return Err(format!("iter_from({t}) panicked: {p}")),
     };
     match first {
